@@ -4,7 +4,7 @@ From VekLib Require Import Ops ROps LinAlg RLin.
 From VekModel Require Import PolyLen BezierSearch.
 Require Import QArith Reals Lra.
 Require Import NArith List.
-From VekProofs Require Import C15_spec C15_pa C15_pb C15_pd C15_pf C15_pg C15_ph C15_pi.
+From VekProofs Require Import C15_spec C15_pa C15_pb C15_pd C15_pf C15_pg C15_ph C15_pi C15_pj.
 
 Theorem C15_quad_inflection : C15_quad_inflection_stmt.     Proof. exact C15_pb.C15_quad_inflection. Qed.
 Theorem C15_quad_extrema : C15_quad_extrema_stmt.           Proof. exact C15_pa.C15_quad_extrema. Qed.
@@ -14,6 +14,7 @@ Theorem C15_bbox_quad : C15_bbox_quad_stmt.                 Proof. exact C15_pf.
 Theorem C15_search : C15_search_stmt.                       Proof. exact C15_pg.C15_search. Qed.
 Theorem C15_length_code : C15_length_code_stmt.             Proof. exact C15_pi.C15_length_code. Qed.
 Theorem C15_length_model : C15_length_model_stmt.           Proof. exact C15_ph.C15_length_model. Qed.
+Theorem C15_length_polygon : C15_length_polygon_stmt.       Proof. exact C15_pj.polylen_le_control_polygon. Qed.
 
 (** loop shape of length_by_discretization (hand-written model, tied to the code by the correspondence run) *)
 Theorem C15_loop_segments : forall n, segments n = N.succ n.            Proof. exact segments_spec. Qed.
@@ -47,3 +48,4 @@ Print Assumptions C15_bbox_quad.
 Print Assumptions C15_search.
 Print Assumptions C15_length_code.
 Print Assumptions C15_length_model.
+Print Assumptions C15_length_polygon.
